@@ -440,8 +440,8 @@ func NewVM(o Options, fds FDs) *VM {
 	v.polj = bpfvm.ProgTable{}
 	v.vm = &bpfvm.VM{
 		LenientUninit: true,
-		Maps:       map[uint32]bpfvm.Map{uint32(fds.State): v.state, uint32(fds.IPSets): v.ipsets},
-		ProgArrays: map[uint32]bpfvm.ProgArray{uint32(fds.Static): v.static, uint32(fds.PolJump): v.polj},
+		Maps:          map[uint32]bpfvm.Map{uint32(fds.State): v.state, uint32(fds.IPSets): v.ipsets},
+		ProgArrays:    map[uint32]bpfvm.ProgArray{uint32(fds.Static): v.static, uint32(fds.PolJump): v.polj},
 	}
 	return v
 }
